@@ -570,6 +570,22 @@ func ruleFreshID(c *Ctx) {
 				}
 			}
 			return true, ""
+		case *ssa.Call:
+			// an allocator: a function of the package whose every return hands out the counter's value after its increment
+			g := x.Call.StaticCallee()
+			if g == nil || g.Blocks == nil || !c.InPkg(g) || g.Signature.Results().Len() != 1 {
+				return false, "it is the result of a call that is not an id allocator"
+			}
+			k := 0
+			for _, in := range instrsOf(g) {
+				if ret, ok := in.(*ssa.Return); ok {
+					k++
+					if ok, why := freshAt(ret.Results[0], ret, depth+1); !ok {
+						return false, fnName(g) + " returns a value that is not fresh: " + why
+					}
+				}
+			}
+			return k > 0, "allocator without return"
 		}
 		return false, fmt.Sprintf("its origin (%T) is not the object counter", v)
 	}
